@@ -4,6 +4,7 @@ package main
 
 import (
 	"fmt"
+	"strings"
 	"go/ast"
 	"go/constant"
 	"go/token"
@@ -34,6 +35,9 @@ func (fx *FuncCtx) step(st *State, in ssa.Instruction) (forks []*State, ended bo
 		o := fx.newObject(et, "alloc."+x.Comment)
 		st.heap[o] = fx.Zero(et)
 		f.vals[x] = PtrVal{Obj: o, Nil: False(), Elem: et}
+		if x.Comment != "" && !strings.ContainsAny(x.Comment, " .()") {
+			f.locals[x.Comment] = localAddr{P: f.vals[x].(PtrVal)}
+		}
 	case *ssa.FieldAddr:
 		p := st.ptr(x.X, x.Pos(), "field")
 		np := p.extend(PathElem{Field: x.Field})
@@ -200,7 +204,7 @@ func (fx *FuncCtx) step(st *State, in ssa.Instruction) (forks []*State, ended bo
 				if pv, ok := st.val(x.X).(PtrVal); ok {
 					f.locals[id.Name] = localAddr{P: pv}
 				}
-			} else {
+			} else if _, isAddr := f.locals[id.Name].(localAddr); !isAddr {
 				f.locals[id.Name] = st.val(x.X)
 			}
 		}
